@@ -269,7 +269,36 @@ trivial = empty input; distinct = distinct input contents; families: every lengt
     let total: u64 = ctx.tier.pick(6_000, 1_500_000);
     par_cases(ctx, total, |i, obs| {
         let mut rng = Rng::derive(seed, 6, 100 + i);
-        let (input, family): (Vec<u8>, &str) = match rng.below(8) {
+        let (input, family): (Vec<u8>, &str) = match rng.below(10) {
+            8 => {
+                // a record whose bzip2 stream has several blocks and breaks off inside a later one:
+                // decompression fails *after* it has produced output (a download cut short)
+                let whole = crate::props::poison::multi_block_stream();
+                let cut = whole.len() - 1 - rng.usize_below(whole.len() / 3);
+                let mut r = (cut as u32).to_be_bytes().to_vec();
+                r.extend_from_slice(&whole[..cut]);
+                if rng.chance(1, 2) {
+                    let mut f = enc::VolHeader::realistic(&mut rng).encode().to_vec();
+                    f.extend_from_slice(&r);
+                    (f, "bzip2-stream-cut-in-a-later-block-file")
+                } else {
+                    (r, "bzip2-stream-cut-in-a-later-block-record")
+                }
+            }
+            9 => {
+                // more than half a mebibyte: sizes at which an implementation may switch strategy
+                let n = *rng.pick(&[524_289usize, 600_000, 1_048_577, 1_500_000]);
+                let mut b = if rng.chance(1, 2) { rng.bytes(n) } else { vec![rng.u8(); n] };
+                if rng.chance(2, 3) {
+                    b[..24].copy_from_slice(&enc::VolHeader::realistic(&mut rng).encode());
+                    if rng.chance(1, 2) {
+                        let body = (n - 28) as u32;
+                        b[24..28].copy_from_slice(&body.to_be_bytes());
+                        b[28..32].copy_from_slice(b"BZh9");
+                    }
+                }
+                (b, "large-input")
+            }
             7 => {
                 // a structurally valid volume whose radials carry undocumented codes (radial
                 // status 6..=255, spacing codes, date 0 ...): scan() must still return
@@ -388,7 +417,32 @@ trivial = empty input; distinct = distinct input contents; families: every lengt
             }
         };
         obs.count(&format!("family_{}", family), 1);
-        run_input(obs, &input, family);
+        // Where the caller stands is part of the workload: one case in eight is run from inside a
+        // current-thread Tokio runtime (as under #[tokio::test] or a LocalSet), one from inside a
+        // multi-threaded one; the statement holds wherever the call is made from.
+        match i % 8 {
+            6 => {
+                obs.count("cases_called_from_inside_a_current_thread_runtime", 1);
+                match tokio::runtime::Builder::new_current_thread().enable_all().build() {
+                    Ok(rt) => rt.block_on(async { run_input(obs, &input, family) }),
+                    Err(_) => run_input(obs, &input, family),
+                }
+            }
+            7 if i % 64 == 7 => {
+                obs.count("cases_called_from_inside_a_multi_thread_runtime", 1);
+                match tokio::runtime::Builder::new_multi_thread().worker_threads(1).enable_all().build() {
+                    Ok(rt) => rt.block_on(async { run_input(obs, &input, family) }),
+                    Err(_) => run_input(obs, &input, family),
+                }
+            }
+            _ => run_input(obs, &input, family),
+        }
+        if family.starts_with("bzip2-stream-cut-in-a-later-block") {
+            // ... and the next thing this thread is asked to do is an ordinary small volume
+            let spec = gen_container(&mut rng, 600);
+            let (bytes, _) = spec.build();
+            run_input(obs, &bytes, "small-valid-volume-right-after-a-failed-multi-block-read");
+        }
         if obs.want_sample() && i % 509 == 9 {
             obs.sample(json!({"family": family, "len": input.len(), "input": crate::ev::hex_abbrev(&input, 48)}));
         }
